@@ -14,6 +14,7 @@ mod proto {
 }
 
 use alloc::boxed::Box;
+use alloc::string::String;
 use alloc::vec::Vec;
 use core::sync::atomic::{AtomicU64, Ordering};
 use core::time::Duration;
@@ -128,6 +129,68 @@ impl Val for [u64; 33] {
     }
 }
 
+impl Val for bool {
+    fn make(tag: u32) -> Self {
+        vword(tag, 0) & 1 == 1
+    }
+    fn vhash(&self) -> u64 {
+        vfold(vfold(VHASH_SEED, C_BOOL as u64), *self as u64)
+    }
+}
+
+impl Val for Option<u32> {
+    fn make(tag: u32) -> Self {
+        let w = vword(tag, 0);
+        if w & 1 == 1 {
+            Some((w >> 32) as u32)
+        } else {
+            None
+        }
+    }
+    fn vhash(&self) -> u64 {
+        let h = vfold(VHASH_SEED, C_OPT_U32 as u64);
+        match self {
+            Some(x) => vfold(vfold(h, 1), *x as u64),
+            None => vfold(vfold(h, 0), 0),
+        }
+    }
+}
+
+impl Val for String {
+    fn make(tag: u32) -> Self {
+        let mut s = String::new();
+        for i in 0..string_len(tag) {
+            s.push(string_byte(tag, i) as char);
+        }
+        s
+    }
+    fn vhash(&self) -> u64 {
+        let mut h = vfold(vfold(VHASH_SEED, C_STRING as u64), self.len() as u64);
+        for b in self.bytes() {
+            h = vfold(h, b as u64);
+        }
+        h
+    }
+}
+
+impl Val for core::result::Result<u8, u8> {
+    fn make(tag: u32) -> Self {
+        let w = vword(tag, 0);
+        if w & 1 == 1 {
+            Ok((w >> 8) as u8)
+        } else {
+            Err((w >> 8) as u8)
+        }
+    }
+    fn vhash(&self) -> u64 {
+        let h = vfold(VHASH_SEED, C_RESULT_U8 as u64);
+        match self {
+            Ok(x) => vfold(vfold(h, 1), *x as u64),
+            Err(x) => vfold(vfold(h, 0), *x as u64),
+        }
+    }
+}
+
 #[repr(align(64))]
 struct A64 {
     a: u64,
@@ -216,6 +279,10 @@ enum Handle {
     W33(JoinHandle<[u64; 33]>),
     A64(JoinHandle<A64>),
     A4096(JoinHandle<A4096>),
+    Bool(JoinHandle<bool>),
+    OptU32(JoinHandle<Option<u32>>),
+    Str(JoinHandle<String>),
+    ResU8(JoinHandle<core::result::Result<u8, u8>>),
 }
 
 fn spawn_one<T: Val>(s: Spec, slot: usize) -> tiny_std::Result<JoinHandle<T>> {
@@ -230,6 +297,10 @@ fn spawn_class(s: Spec, slot: usize) -> tiny_std::Result<Handle> {
         C_B24 => Handle::B24(spawn_one(s, slot)?),
         C_W33 => Handle::W33(spawn_one(s, slot)?),
         C_A64 => Handle::A64(spawn_one(s, slot)?),
+        C_BOOL => Handle::Bool(spawn_one(s, slot)?),
+        C_OPT_U32 => Handle::OptU32(spawn_one(s, slot)?),
+        C_STRING => Handle::Str(spawn_one(s, slot)?),
+        C_RESULT_U8 => Handle::ResU8(spawn_one(s, slot)?),
         _ => Handle::A4096(spawn_one(s, slot)?),
     })
 }
@@ -254,6 +325,10 @@ fn join_handle(h: Handle, tag: u32, slot: &Slot) {
         Handle::W33(h) => join_typed(h, tag, slot),
         Handle::A64(h) => join_typed(h, tag, slot),
         Handle::A4096(h) => join_typed(h, tag, slot),
+        Handle::Bool(h) => join_typed(h, tag, slot),
+        Handle::OptU32(h) => join_typed(h, tag, slot),
+        Handle::Str(h) => join_typed(h, tag, slot),
+        Handle::ResU8(h) => join_typed(h, tag, slot),
     }
 }
 
